@@ -20,19 +20,27 @@ type FieldDescriptor struct {
 	Constraints Constraints `json:"constraints"`
 }
 
-func (d *FieldDescriptor) cast() string {
+// castType returns the type values of the field are indexed
+// and compared with, ok is false if the field cannot be indexed
+func (d *FieldDescriptor) castType() (cast string, ok bool) {
 	switch d.Type {
 	case "int", "int8", "int16", "int32", "int64", "time.Time":
-		return "int64"
+		return "int64", true
 	case "uint", "uint8", "uint16", "uint32", "uint64":
-		return "uint64"
+		return "uint64", true
 	case "float32", "float64":
-		return "float64"
+		return "float64", true
 	case "string":
-		return d.Type
-	default:
-		panic(fmt.Sprintf("unkwnown type to cast %s", d.Type))
+		return d.Type, true
 	}
+	return
+}
+
+func (d *FieldDescriptor) cast() string {
+	if cast, ok := d.castType(); ok {
+		return cast
+	}
+	panic(fmt.Sprintf("unkwnown type to cast %s", d.Type))
 }
 
 func (d *FieldDescriptor) Transform(o interface{}) {
